@@ -168,7 +168,12 @@ def catalogue(mm: MM, lsp):
             stats["facets"] += 1
             if v not in methods:
                 bad("extra-constant", n, "constant %s = %r is no method of the metamodel" % (n, v))
-    # ---- registry
+    # ---- registry (checked twice: as imported, and again after the first get_converter(), which resolves
+    # forward references through the registry and must leave it complete)
+    return _registry(mm, lsp, vs, stats, bad)
+
+
+def _registry(mm, lsp, vs, stats, bad, second_pass=False):
     reg = getattr(lsp, "ALL_TYPES_MAP", {})
     for n, c in vars(lsp).items():
         if n.startswith("__") or (n.startswith("_") and n not in mm.structures and n not in mm.aliases and n not in mm.enums):
@@ -193,8 +198,10 @@ def catalogue(mm: MM, lsp):
         stats["registry_names"] += 1
         if getattr(lsp, n, None) is not c and not same_type(getattr(lsp, n, None), c):
             bad("registry-extra", n, "ALL_TYPES_MAP[%r] is not lsprotocol.types.%s" % (n, n))
+    if not second_pass:
+        impl.converter()
+        return _registry(mm, lsp, vs, stats, bad, second_pass=True)
     # dynamic: after the first get_converter no field is a string / ForwardRef
-    impl.converter()
     classes = {n: c for n, c in reg.items() if isinstance(c, type) and attrs.has(c)}
     for n, c in vars(lsp).items():
         if isinstance(c, type) and attrs.has(c) and getattr(c, "__module__", None) == lsp.__name__:
